@@ -488,3 +488,18 @@ GROUPS["g14"] += [
       "    if source.get(5).is_some_and(|c| c.is_alphanumeric()) {\n        return None;\n    }\n", "",
       "R-C17-boundary:entry:lex_long_decade"),
 ]
+
+GROUPS["p6"] = [
+    # Remove written with drain: same text afterwards
+    E("p-c03-remove-drain", ["C03"], "harper-core/src/linting/suggestion.rs",
+      "                for i in span.end..source.len() {\n                    source[i - span.len()] = source[i];\n                }\n\n                source.truncate(source.len() - span.len());",
+      "                source.drain(span.start..span.end);",
+      None),
+]
+GROUPS["g15"] = [
+    # Remove capitalises what follows (the shape of seeded/C03-b)
+    E("c03-remove-recapitalises", ["C03"], "harper-core/src/linting/suggestion.rs",
+      "                source.truncate(source.len() - span.len());",
+      "                source.truncate(source.len() - span.len());\n                if let Some(first) = source.get_mut(span.start) {\n                    *first = first.to_ascii_uppercase();\n                }",
+      "R-C03-copy:Suggestion::apply:stores"),
+]
